@@ -166,10 +166,10 @@ def trace_part(chk, n_seg, n_file):
     @settings(max_examples=n_file, deadline=None, database=None, derandomize=True,
               suppress_health_check=list(HealthCheck))
     @given(scenario(), st.sampled_from(['FCS3.0', 'FCS3.1']), st.booleans(), st.sampled_from(['header', 'text']),
-           st.sampled_from(['ok', 'ok', 'broken']), st.integers(0, 5))
-    def run_file(sc, version, supp_lead, analysis_in, an_state, pad):
+           st.sampled_from(['ok', 'ok', 'broken']), st.integers(0, 5), st.booleans())
+    def run_file(sc, version, supp_lead, analysis_in, an_state, pad, an_lead):
         dl, pairs = sc
-        if dl in '0123456789$':          # offsets / required keywords are rendered with these
+        if dl.isalnum() or dl in '$,':   # offsets / required keywords and their values are rendered with these
             dl = '|'
             pairs = [(k.replace('|', '!') or '!', v.replace('|', '!') or '!') for k, v in pairs]
         # split user pairs over primary / supplemental / analysis; one key present in both TEXTs
@@ -186,7 +186,7 @@ def trace_part(chk, n_seg, n_file):
             araw = fcsgen.encode_text(c, dl)[:-1] + 'zz' if len(c) % 2 else dl + dl + 'q' + dl
         blob, lay = fcsgen.build(version=version, pairs=req + a, data=b'\x07', delim=dl, supp_pairs=b or None,
                                  analysis_pairs=c or None, analysis_in=analysis_in, supp_lead=supp_lead,
-                                 pad_text=pad, raw_analysis=araw)
+                                 pad_text=pad, raw_analysis=araw, analysis_lead=an_lead)
         path = os.path.join(d0, 'f.fcs')
         with open(path, 'wb') as f:
             f.write(blob)
@@ -204,7 +204,8 @@ def trace_part(chk, n_seg, n_file):
                'aq': list(blob[lay['ab']:lay['ae'] + 1]) if lay['ab'] else [],
                'k': k, 'dict': proj_dict(ff.text) if k == 'ok' else [],
                'adict': proj_dict(ff.analysis) if k == 'ok' else [], 'awarn': awarn,
-               'meta': {'version': version, 'n': [len(a), len(b), len(c)], 'an_state': an_state}}
+               'meta': {'version': version, 'n': [len(a), len(b), len(c)], 'an_state': an_state,
+                        'analysis_in': analysis_in, 'analysis_lead': an_lead}}
         file_cases.append(rec)
 
     run_file()
